@@ -14,17 +14,11 @@ PROP = 'C16'
 IMPORTS = 'Model.BinScript Model.Labels Model.Texture Gen.InstrFmt Gen.TexFmt Corr.C16'
 W = os.path.join(WORK, 'c16')
 
-# table row that does not satisfy the guard of a theorem -> the panic class(es) it stands for
-FMT_CLASS = {
-    'FStd06': ['c16-panic:src/formats/std.rs:StdHooks06::read_instr:assertion `left == right` failed'],
-    'FStd10': ['c16-panic:src/formats/std.rs:StdHooks10::read_instr:attempt to subtract with overflow'],
-    'FEcl06': ['c16-panic:src/formats/ecl/ecl_06.rs:OldeEclHooks::read_instr:attempt to subtract with overflow',
-               'c16-panic:alloc/src/raw_vec/mod.rs<-OldeEclHooks::read_instr:capacity overflow'],
-    'FTl06': ['c16-panic:alloc/src/raw_vec/mod.rs<-TimelineFormat06::read_instr:capacity overflow'],
-}
-DEC_CLASS = {1: ['c16-panic:src/formats/std.rs:StdHooks06::decode_label:attempt to multiply with overflow']}
-GUARD_CLASS = ['c16-panic:src/formats/anm/image_io.rs:produce_image_from_entry:size error?!',
-               'c16-panic:src/image/color.rs:ColorBytes::decode:assertion `left == right` failed']
+# generated table row -> the Rust type whose read_instr / decode_label it describes (to pair a row that fails the
+# side conditions of Props/C16.v C16_tables_wf with the crashing file found by the harness)
+FMT_TYPE = {'FAnm06': 'InstrFormat06', 'FAnm07': 'InstrFormat07', 'FStd06': 'StdHooks06', 'FStd10': 'StdHooks10', 'FMsg': 'MsgHooks',
+            'FEcl06': 'OldeEclHooks', 'FTl06': 'TimelineFormat06', 'FTl08': 'TimelineFormat08', 'FEcl10': 'ModernEclHooks'}
+DEC_TYPE = {0: 'LanguageHooks::decode_label', 1: 'StdHooks06::decode_label', 2: 'OldeEclHooks::decode_label', 3: 'ModernEclHooks::decode_label'}
 
 def tool_of(name):
     ext = name.rsplit('.', 1)[-1]
@@ -162,13 +156,14 @@ def main(argv):
         fm, dc, guard = st
         v.notes.append('generated tables: formats outside size_safe = %s; decode_label outside dl_safe = %s; extract size guard = %s' % (fm, dc, guard))
         todo = []
-        for n in fm: todo += [(c, 'instruction format %s: size arithmetic can panic (Props/C16.v C16_read_total does not apply; C16_read_total_refuted)' % n) for c in FMT_CLASS.get(n, ['c16-table:' + n])]
-        for n in dc: todo += [(c, 'decode_label #%d: u32 product can overflow (C16_decode_label_refuted)' % n) for c in DEC_CLASS.get(n, ['c16-table:decode%d' % n])]
-        if not guard: todo += [(c, 'produce_image_from_entry has no size guard (C16_extract_total_refuted)') for c in GUARD_CLASS]
-        for c, what in todo:
-            if c in reported: continue
-            reported.add(c)
-            v.violation(what, {'class': c, 'broken': what}, no_failing_input=True)
+        for n in fm: todo.append(('c16-table:' + n, FMT_TYPE.get(n, n) + '::read_instr', 'instruction format %s (%s): the argument-size arithmetic can panic (side condition size_safe of C16_read_total fails)' % (n, FMT_TYPE.get(n, '?'))))
+        for n in dc: todo.append(('c16-table:decode%d' % n, DEC_TYPE.get(n, 'decode_label'), 'decode_label #%d (%s): the product is computed in u32 and can overflow (side condition dl_safe fails)' % (n, DEC_TYPE.get(n, '?'))))
+        if not guard: todo.append(('c16-table:extract-guard', 'produce_image_from_entry', 'produce_image_from_entry has lost its size guard (side condition of C16_extract_total fails)'))
+        for c, needle, what in todo:
+            ex = [x for x in fails if needle in x['class'] or needle.split('::')[0] in x['class']]
+            rep = {'class': c, 'broken': what}
+            if ex: rep.update({k: ex[0][k] for k in ('tool', 'game', 'flags', 'action', 'opts', 'hex', 'detail')})
+            v.violation(what + (': ' + ex[0]['detail'] if ex else ''), rep, no_failing_input=not ex)
 
     # (X) correspondence: model vs implementation
     kinds = [c[0] for c in cases]
@@ -216,4 +211,4 @@ def main(argv):
                       'fork server (harness/src/forkrun.rs): a forked child calling truth::cli_def::truth_main is taken to behave like the truth-cli binary; checked on a sample of every run against the exec\'d binary'],
         assumptions=['PARTIAL: the theorems cover the script reader (all nine instruction formats), decode_label, the label pass and its lookups, and the texture size check. File-header parsing (seeks, entry/object/table loops), decode_args and string decoding, raising beyond labels, diagnostic rendering, allocation sizes, stack depth and running time are covered by the mutation harness only (command line with 10 s / 2 GiB limits, library under catch_unwind), not by a theorem',
                      'slice::binary_search is modelled as the index of the element (instr_offsets is strictly increasing)',
-                     'C16_read_total applies to a format only if its generated row satisfies size_safe; rows that do not are reported on every run (known findings until the fixes in /verif/fixes/c16-*.diff are applied)'])
+                     'C16_read_total / C16_decode_label_total / C16_extract_total hold because the generated rows satisfy size_safe / dl_safe / the size guard (C16_tables_wf, vm_compute on the tables of the current source); an edit that reintroduces unchecked size arithmetic breaks that obligation and is reported with the crashing file found by the harness'])
